@@ -1,6 +1,8 @@
 """C05 — imzML mass-window extraction: pewlib.io.imzml.ImzML.extract_masses / extract_tic / mass_range /
-binned_masses on synthetic imzML/ibd pairs against PewModel/Imzml.lean (mechanism: searchsorted ->
-sentinel -> reduceat -> [::2] -> zeroing; specification: windowSum per pixel)."""
+binned_masses on synthetic imzML/ibd pairs against PewModel/Imzml.lean (mechanism: get_binary_data on the
+bytes of the .ibd -> dict of spectra -> searchsorted -> sentinel -> reduceat -> [::2] -> zeroing -> placement by
+NumPy subscripts; specification: windowSum per pixel at [y-1][x-1]).  The driver gets the bytes of the .ibd file
+the harness wrote plus the offsets / lengths it wrote into the imzML and decodes the arrays itself."""
 import json
 import math
 import sys
@@ -97,6 +99,8 @@ def tables_close(a, b, tol_of):
             if len(va) != len(vb):
                 return False
             tol = tol_of(r, c)
+            if tol is None:  # only the NaN pattern of this pixel is compared
+                continue
             for x, y in zip(va, vb):
                 if x is None or y is None:
                     if x is not y:
@@ -131,17 +135,35 @@ class C05(Prop):
             "a 32-bit-edge class (20% of the exact stream): decimal masses 100..1000 with absolute widths 0.05..3.3 or 10..5000 ppm, "
             "mostly f32 m/z, integer intensities, peaks on float32(e) and its float32 neighbours for the edges e = m -/+ w/2 that are "
             "not float32 values (peak just below/above the lower/upper edge, one float32 step >= 6e-8 relative away); "
-            "bins with dyadic widths incl. spectra with a peak in every bin. non-trivial = at least one of the named window "
-            "classes or a sparse/size-absent image; distinct by canonical case hash")
-    trusted = ["np.searchsorted on a sorted array returns #{p | a[p] < v}; np.add.reduceat, np.append, np.frombuffer, np.arange as documented",
+            "bins with dyadic widths incl. spectra with a peak in every bin. "
+            "70% of the cases carry 1-3 direct calls of Spectrum.get_binary_data on the written .ibd (the arrays the imzML points to and "
+            "random offsets / lengths, element types u1..u8 / f4 / f8, both byte orders, reads ending after or starting beyond the file, "
+            "lengths that are no whole number of elements). 8% of the cases are moved OUTSIDE the quantifier (position 0, negative, "
+            "beyond the size, recorded twice, two positions on one pixel, smaller / empty / negative size, nothing at all): "
+            "implementation vs model only, the specification is not evaluated. "
+            "non-trivial = at least one of the named window classes, a sparse/size-absent image or an off: class; distinct by canonical case hash")
+    trusted = ["np.searchsorted on a sorted array returns #{p | a[p] < v}; np.add.reduceat, np.append, np.arange as documented; "
+               "np.frombuffer / file seek+read and IEEE-754 decoding are MODELLED (getBinaryData, ieeeVal) and compared element by element "
+               "(bit patterns and exact values) with what get_binary_data returns on the written file",
                "exact stream: m/z k/2^14 < 256 and integer intensities < 2^11 so float32/float64 sums and the float window edges "
                "of absolute widths are exact; 32-bit-edge class: m/z < 1024 stored as float32, integer intensities < 2^11, sums exact; "
                "ppm widths, the real stream and every absolute width whose float64 edges m -/+ w/2 are not exact: cases with a peak "
                "within 1e-9 relative of a window edge are undetermined; real stream: sums compared with tolerance 8*n*eps*total",
-               "xml.etree.ElementTree parses the synthetic document as written; float(text) of the stored TIC"]
-    assumptions = ["positions are 1-based and inside the stated image size; spectra are non-empty with strictly increasing m/z",
+               "xml.etree.ElementTree parses the synthetic document as written (position, size, offset, encoded length, element type); "
+               "float(text) of the stored TIC (the harness hands the model the parsed value)"]
+    assumptions = ["the specification is evaluated only where the quantifier holds: every position recorded once, 1-based and inside the "
+                   "image; spectra non-empty with strictly increasing m/z and as many intensities (decided by the driver, `hyp`); outside it "
+                   "the implementation is compared with the mechanism model only (raising vs not raising, shape, NaN pattern, values; the "
+                   "exception class and the value of a pixel two positions share are not compared)",
                    "mass_range is checked as a bound (low <= every m/z <= high); bin edges returned by binned_masses are accepted when they "
                    "step by the requested width and cover the recorded range, the per-bin sums are then checked against those edges"]
+
+    # Outside the property's quantifier (position 0 / negative / beyond the size / recorded twice, empty or negative
+    # sizes, reads that end after the file or are no whole number of elements) the property says nothing; there the
+    # implementation is compared with the MODEL only.  True: such a disagreement reaches the verdict ("VIOLATION ...
+    # no-failing-input-found": the model no longer describes the code).  False: it is only counted as the feature
+    # "off:DIFFERS-from-model" in the evidence.
+    OFF_DOMAIN_VERDICT = True
 
     # ------------------------------------------------------------------ generation
     def gen_tic(self, rng, total):
@@ -582,7 +604,11 @@ class C05(Prop):
             eps = 2.0 ** -23 if case["itdt"] == "f4" else 2.0 ** -52
             totals[(s["y"] - 1, s["x"] - 1)] = F(8 * max(1, len(s["it"])) * eps * sum(s["it"])) if case["kind"] == "real" else F(0)
         big = max(totals.values(), default=F(0))
-        tol = (lambda r, c: totals.get((r, c), F(0))) if hyp else (lambda r, c: big)
+        # outside the quantifier two dict values can be written to one pixel (positions 0 and X): which one stays depends
+        # on the order of the loop, which the property does not fix: only the NaN-ness of such a pixel is compared
+        ali = rep["aliased"] or []
+        is_ali = lambda r, c: r < len(ali) and c < len(ali[r]) and bool(ali[r][c])
+        tol = (lambda r, c: totals.get((r, c), F(0))) if hyp else (lambda r, c: None if is_ali(r, c) else big)
         # the summed TIC of a pixel whose exact total is not representable in the intensity type is rounding-determined
         # for ANY implementation (a dominant peak next to small ones): tolerance for the TIC table only
         tic_totals = dict(totals)
@@ -592,7 +618,7 @@ class C05(Prop):
                 eps = 2.0 ** -23 if case["itdt"] == "f4" else 2.0 ** -52
                 tic_totals[(s["y"] - 1, s["x"] - 1)] = F(8 * max(1, len(s["it"])) * eps * sum(s["it"]))
         bigt = max(tic_totals.values(), default=F(0))
-        tol_tic = (lambda r, c: tic_totals.get((r, c), F(0))) if hyp else (lambda r, c: bigt)
+        tol_tic = (lambda r, c: tic_totals.get((r, c), F(0))) if hyp else (lambda r, c: None if is_ali(r, c) else bigt)
         parts_spec, parts_model = {}, {}
         if imz is None:
             parts_spec["parse"] = parts_model["parse"] = False
@@ -622,7 +648,10 @@ class C05(Prop):
             if "dict" in impl:
                 parts_model["dict"] = impl["dict"] == model["dict"]
         if reads is not None:
-            parts_model["reads"] = impl["reads"] == model["reads"]
+            inq = [r.get("past") is None and r["len"] % int(r["dt"][1:]) == 0 for r in case["reads"]]
+            pairs = list(zip(inq, impl["reads"], model["reads"]))
+            parts_model["reads"] = all(i == m for q, i, m in pairs if q)          # arrays inside the file: always
+            parts_model["reads-off"] = all(i == m for q, i, m in pairs if not q)  # short / misaligned reads: off-domain
 
         # undetermined: a peak within 1e-9 relative of a window edge whose float value depends on how the code
         # rounds (real stream; every ppm width: m*ppm/1e6/2 and e.g. m*(ppm*5e-7) are both right but round differently)
@@ -660,6 +689,13 @@ class C05(Prop):
                               "matches_defect_model": "data" in mb and ib["bins"] == mb["bins"]
                               and tables_close(ib["data"], mb["data"], tol)}
         feats = self.features(case, rep, brep, dspecs, hyp, reads is not None, "dict" in impl)
+        if not self.OFF_DOMAIN_VERDICT:
+            # disagreements outside the quantifier are only counted (feature), they do not reach the verdict
+            offp = [k for k in parts_model if k == "reads-off" or (not hyp and k not in ("reads", "parse"))]
+            if any(not parts_model[k] for k in offp) and feats:
+                feats = list(feats) + ["off:DIFFERS-from-model"]
+            for k in offp:
+                parts_model[k] = True
         return outcome(impl, model, spec, spec_ok=all(parts_spec.values()), model_ok=all(parts_model.values()),
                        undetermined=undet, hyp=hyp, features=feats, note=json.dumps(note, sort_keys=True))
 
@@ -677,6 +713,8 @@ class C05(Prop):
             return out
         except (AttributeError, TypeError, KeyError):
             return None
+        except Exception as e:  # the read itself fails: an observation, not an error of the harness
+            return {"raises": type(e).__name__}
 
     @staticmethod
     def run_reads(case, path, ibd):
@@ -699,11 +737,11 @@ class C05(Prop):
             dt = np.dtype(r["dt"]) if r["dt"] == "u1" else np.dtype(o + r["dt"])
             try:
                 arr = getter(str(i), dt, path.with_suffix(".ibd"))
-            except ValueError:
-                impl.append({"raises": True})
-                continue
             except TypeError:
                 return None
+            except Exception:  # np.frombuffer: ValueError
+                impl.append({"raises": True})
+                continue
             arr = np.asarray(arr)
             bits = arr.view(np.dtype("u1") if r["dt"] == "u1" else np.dtype(o + "u" + r["dt"][1:]))
             vals = [None if (arr.dtype.kind == "f" and not np.isfinite(v)) else str(F(float(v)) if arr.dtype.kind == "f" else int(v))
@@ -775,11 +813,8 @@ class C05(Prop):
                 off.add("off:position-beyond-size")
             if case["size"] is not None and min(case["size"]) < 0:
                 off.add("off:negative-size")
-            if rep["extract_model"] is not None:
-                Y, X = rep["extract_model"]["shape"]
-                cells = [((p[1] - 1) % Y if Y else None, (p[0] - 1) % X if X else None) for p in set(pos)]
-                if len(set(cells)) < len(cells):
-                    off.add("off:two-positions-one-pixel")
+            if any(v for row in (rep["aliased"] or []) for v in row):
+                off.add("off:two-positions-one-pixel-value-not-compared")
             f.add("outside-the-quantifier")
         if did_reads:
             f.add("direct-read")
